@@ -167,7 +167,16 @@ impl Scope for RtScope {
             }
             objs.sort_by(|a, b| a.key.as_bytes().cmp(b.key.as_bytes()));
             let (sel, truncated, limit) = s3sim::select(&objs, &prefix, max_keys);
-            Resp::xml(s3sim::list_xml(&req.bucket, &prefix, &sel, truncated, limit, false))
+            let hidden_now = max_keys != Some(1)
+                && sel.is_empty()
+                && self.plan.later_vols.iter().any(|(v, _, _)| *v == vol)
+                && self.list_counts.get(&vol).copied().unwrap_or(0) % 2 == 0;
+            if hidden_now {
+                // a transient listing failure looks like an empty directory to the poller
+                Resp::status(500)
+            } else {
+                Resp::xml(s3sim::list_xml(&req.bucket, &prefix, &sel, truncated, limit, false))
+            }
         } else {
             self.gets_total += 1;
             let key = req.key.clone().unwrap_or_default();
@@ -684,6 +693,18 @@ pub fn check_history(obs: &mut Obs, plan: &Plan, h: &RtScope, outcome: &Outcome,
                     obs.violation("no LatestVolumeCalls statistic was emitted", "", replay.clone());
                     return;
                 }
+            }
+        }
+        // NewVolumeCalls == listings issued for that volume (empty/failed ones + the one that showed chunks)
+        let new_vols: Vec<usize> = h.stats.iter().filter(|s| s.1 == "NewVolumeCalls").map(|s| s.2).collect();
+        let entered: Vec<&(usize, usize, usize)> = plan.later_vols.iter().filter(|(v, _, _)| delivered.iter().any(|d| d.0 == *v)).collect();
+        for (k, calls) in new_vols.iter().enumerate() {
+            if let Some((v, hidden, _)) = entered.get(k) {
+                if *calls != hidden + 1 {
+                    obs.violation("NewVolumeCalls differs from the listings made to find the new volume", format!("volume {}: reported {}, scripted {}", v, calls, hidden + 1), replay.clone());
+                    return;
+                }
+                obs.count("new_volume_calls_equal_logged_lists", 1);
             }
         }
         // NewChunk.calls == GETs issued for that chunk
